@@ -9,10 +9,13 @@ import (
 	"context"
 	"reflect"
 
+	kerrors "k8s.io/apimachinery/pkg/api/errors"
 	metav1 "k8s.io/apimachinery/pkg/apis/meta/v1"
 	"k8s.io/apimachinery/pkg/runtime"
+	"k8s.io/apimachinery/pkg/runtime/schema"
 	"k8s.io/apimachinery/pkg/types"
 	"k8s.io/utils/ptr"
+	"sigs.k8s.io/controller-runtime/pkg/client"
 
 	"github.com/crossplane/crossplane-runtime/pkg/resource/unstructured/composed"
 
@@ -28,7 +31,12 @@ func zzForeignSetup(s *kube.Store) (foreignName string, referenced bool, before 
 	zz.Assume(foreign != zzXRUIDc)
 	zz.Assume(foreign != "")
 	foreignName = zzXRName + "-foreign"
-	s.Put(zzComposedObject(foreignName, zzResNames[0], zzOwnForeign, foreign))
+	fo := zzComposedObject(foreignName, zzResNames[0], zzOwnForeign, foreign)
+	if zz.Bool("foreign.hasFieldManagers") {
+		// written by its own controller: field managers that are not the XR's
+		fo.SetManagedFields([]metav1.ManagedFieldsEntry{{Manager: "other-controller", Operation: metav1.ManagedFieldsOperationUpdate}})
+	}
+	s.Put(fo)
 	own := zzComposedObject(zzXRName+"-own", zzResNames[1], zzOwnOurs, "")
 	s.Put(own)
 	xr := zzNewXRObject()
@@ -53,13 +61,26 @@ func zzAssertUntouched(s *kube.Store, name string, before map[string]any) {
 	}
 }
 
+// zzMissingCache is a cached client that has not seen one object yet.
+type zzMissingCache struct {
+	*kube.Store
+	miss string
+}
+
+func (c *zzMissingCache) Get(ctx context.Context, key client.ObjectKey, obj client.Object, opts ...client.GetOption) error {
+	if key.Name == c.miss {
+		return kerrors.NewNotFound(schema.GroupResource{Resource: "composed"}, key.Name)
+	}
+	return c.Store.Get(ctx, key, obj, opts...)
+}
+
 // HarnessC02Pipeline: the function composer never updates, adopts or deletes
 // a composed resource another owner controls - whether the XR references it,
 // a desired resource carries its name annotation, or a desired resource asks
 // for its very name - and the conflict surfaces.
 //
 //gosym:harness
-//gosym:cover named-collision referenced-foreign desired-same-resource-name conflict-surfaced
+//gosym:cover named-collision referenced-foreign desired-same-resource-name conflict-surfaced cache-miss
 func HarnessC02Pipeline() {
 	s := kube.New()
 	name, referenced, before := zzForeignSetup(s)
@@ -77,7 +98,14 @@ func HarnessC02Pipeline() {
 		zz.Cover("desired-same-resource-name")
 	}
 	runner := &zzRunner{steps: []zzStep{st}}
-	c := NewFunctionComposer(s, s, runner)
+	// the informer cache may not hold the foreign object yet: reads of it
+	// fall through to the API server
+	var cached client.Client = s
+	if zz.Bool("cache.missesForeignObject") {
+		zz.Cover("cache-miss")
+		cached = &zzMissingCache{Store: s, miss: name}
+	}
+	c := NewFunctionComposer(cached, s, runner)
 	res, err := c.Compose(context.Background(), zzReadXR(s), CompositionRequest{Revision: zzRevision(1)})
 	zzAssertUntouched(s, name, before)
 	if collide && st.desired[0] {
